@@ -432,15 +432,11 @@ def oracle_seq(c, snaps):
     nc = c["nc"]
     fb = fbytes(c)
     fs = float(c["fs_text"])
-    prev_fts = None if c["fts_text"] is None else float(c["fts_text"])
     for i, s in enumerate(snaps):
         cur = s["cur"]
         want = cur // fb
-        stale = "no"
-        if c["reader"] == "offline" and prev_fts is not None and cur != c["size0"] and \
-                int(round(prev_fts * fs)) * fb == c["size0"]:
-            stale = "claim_equals_cached_size"
-        tags = {"mode": "seq", "reader": c["reader"], "stale": stale, "step": i}
+        tags = {"mode": "seq", "reader": c["reader"], "step": i,
+                "size_changed_since_construction": cur != c["size0"]}
         where = "step %d (file has %d bytes = %d frames + %d)" % (i, cur, want, cur % fb)
         if c["reader"] == "online" and s.get("ns") != want:
             bad.append(("%s: OnlineReader.ns = %s" % (where, s.get("ns", "raises")), tags))
@@ -456,7 +452,6 @@ def oracle_seq(c, snaps):
                     bad.append(("%s: duration rl does not match the sample count" % where, tags))
         for b in s["read_bad"]:
             bad.append(("%s: %s" % (where, b), tags))
-        prev_fts = s["fts"]
     return bad
 
 
@@ -788,7 +783,7 @@ def run(ctx):
             "meta_in_progress": 0, "below_one_frame": 0, "fractional_fs": 0, "imec_meta": 0,
             "outcome_opened": 0, "outcome_exception": 0, "fts_rewritten_warned": 0,
             "histories": 0, "history_steps": 0, "history_open_attempts": 0, "history_online": 0,
-            "history_offline_stale_size": 0, "path_given_as_str": 0, "dtype_not_int16": 0}
+            "history_offline_claim_equals_size_at_construction": 0, "path_given_as_str": 0, "dtype_not_int16": 0}
     nontrivial = set()
     for c, obs in done:
         dist["path_given_as_str"] += bool(c.get("as_str"))
@@ -801,7 +796,8 @@ def run(ctx):
             dist["fractional_fs"] += "." in c["fs_text"]
             dist["meta_in_progress"] += c["fts_text"] is None
             bad = oracle_seq(c, obs) if in_domain(c) else []
-            dist["history_offline_stale_size"] += any(t["stale"] != "no" for _, t in bad)
+            dist["history_offline_claim_equals_size_at_construction"] += \
+                c["reader"] == "offline" and c["claim"] == "eq_size0"
             for what, tags in bad:
                 ctx.fail(what, describe(c), tags)
             nontrivial.add(("seq", c["reader"], c["nc"], c["size0"], c["open_flag"], json.dumps(c["ops"]),
